@@ -219,7 +219,7 @@ def run(ctx):
             a, b = dumps["C"].get(proto), dumps["Py"].get(proto)
             nbytes_cmp += 1
             if a is not None and b is not None and a != b:
-                ctx.oracle_failure("pickle-bytes-differ:%s%s" % (kind, ":fs" if fn == "fs" else ""), "%s%s protocol %d: C and Python pickles differ (%d vs %d bytes)" % (fn, kind, proto, len(a), len(b)), info)
+                ctx.oracle_failure("pickle-bytes-differ:%s%s%s" % (kind, ":fs" if fn == "fs" else "", ":after-iand" if any(c[0] == "iand" for c in calls) else ""), "%s%s protocol %d: C and Python pickles differ (%d vs %d bytes)" % (fn, kind, proto, len(a), len(b)), info)
         ml, mi = sz if sz else (0, 0)
         if sz:
             jobs.append({"id": it, "family": fn, "kind": kind, "mode": mode, "sizes": list(sz), "calls": calls, "followup": followup,
@@ -270,7 +270,7 @@ def run(ctx):
                     ld["proto"], info["family"], info["kind"], bad, ld.get("error", "")), info)
         for proto, hx in r["dumps"].items():
             if bytes.fromhex(hx) != cdumps[int(proto)]:
-                ctx.oracle_failure("pickle-bytes-differ:pure-python-process:%s%s" % (info["kind"], ":fs" if info["family"] == "fs" else ""), "%s%s protocol %s: pickle written by a pure-Python process differs from the C one" % (info["family"], info["kind"], proto), info)
+                ctx.oracle_failure("pickle-bytes-differ:pure-python-process:%s%s%s" % (info["kind"], ":fs" if info["family"] == "fs" else "", ":after-iand" if any(c[0] == "iand" for c in info["calls"]) else ""), "%s%s protocol %s: pickle written by a pure-Python process differs from the C one" % (info["family"], info["kind"], proto), info)
     if got != len(jobs):
         ctx.corr_mismatch("pure-Python child did not answer every job", {"jobs": len(jobs), "answers": got, "stderr": proc.stderr[-1500:]})
     ctx.cov["pickle_byte_comparisons"] = nbytes_cmp
